@@ -96,6 +96,7 @@ class Escape:
         self._seen = set()
         self._ret = {}
         self._cfgs = {}
+        self._invs = {}
         self.visited_funcs = set()
 
     def cfg(self, fd):
@@ -432,7 +433,7 @@ class Escape:
                 e = st.exc.func if isinstance(st.exc, ast.Call) else st.exc
                 cls = canon(e)
                 self.expr(st.exc, st, ci, mod, fd, taint, stack, chain)
-            if self.raise_infeasible(st, fd, taint):
+            if self.raise_infeasible(st, fd, taint, ci):
                 return
             self.site("raise", cls, st, mod, ci, fd, "raise %s" % cls, stack, chain)
             return
@@ -534,7 +535,7 @@ class Escape:
             return tys.pop() if len(tys) == 1 else None
         return None
 
-    def raise_infeasible(self, st, fd, taint):
+    def raise_infeasible(self, st, fd, taint, ci=None):
         """the raise is guarded by a type test of a parameter whose static type (from the call chain) makes the
         guard false: isinstance(p, T) / type(p) in (...) / type(p) is T"""
         import re as _re
@@ -542,6 +543,20 @@ class Escape:
             lits = guard_literals(self.cfg(fd), self.cfg(fd).node_of(st))
         except AnalysisError:
             return False
+        # (b) the guard contradicts an invariant established by the constructor's refusals
+        if ci is not None and fd.name != "__init__":
+            if id(ci) not in self._invs:
+                from pyutil import ctor_invariants
+                self._invs[id(ci)] = ctor_invariants(self.repo, ci)
+            for inv in self._invs[id(ci)]:
+                if inv <= set(lits):
+                    return True
+        # (c) the guard contradicts what the caller established about the argument (not None / truthy)
+        for text, pol in lits:
+            if pol and text.startswith("None is ") and taint.get("$notnone:" + text[8:]):
+                return True
+            if (not pol) and taint.get("$notnone:" + text) and text.isidentifier():
+                return True
         PY = {"str": {"str"}, "bytes": {"bytes"}}
         for text, pol in lits:
             m = _re.fullmatch(r"isinstance\((\w+), (.+)\)", text)
@@ -564,6 +579,52 @@ class Escape:
             if holds != pol:
                 return True         # this guard literal is false for the call chain's argument type
         return False
+
+    def possible_strs(self, e, fd, ci, mod):
+        """strings a name expression can evaluate to: a constant, or a loop variable running over a class-level
+        dict / list / tuple of string constants"""
+        if isinstance(e, ast.Constant) and isinstance(e.value, str):
+            return [e.value]
+        if not isinstance(e, ast.Name):
+            return None
+        for lp in ast.walk(fd):
+            if not isinstance(lp, ast.For):
+                continue
+            tg = lp.target
+            pos = None
+            if isinstance(tg, ast.Name) and tg.id == e.id:
+                pos = "self"
+            elif isinstance(tg, (ast.Tuple, ast.List)):
+                for i_, x in enumerate(tg.elts):
+                    if isinstance(x, ast.Name) and x.id == e.id:
+                        pos = i_
+            if pos is None:
+                continue
+            it = lp.iter
+            meth = None
+            if isinstance(it, ast.Call) and isinstance(it.func, ast.Attribute) and it.func.attr in ("items", "values", "keys") and not it.args:
+                meth, it = it.func.attr, it.func.value
+            if not (isinstance(it, ast.Attribute) and isinstance(it.value, ast.Name) and it.value.id in ("self", "cls") and ci is not None):
+                return None
+            c_, v_ = self.repo.find_attr(ci, it.attr)
+            if v_ is None:
+                return None
+            try:
+                val = ast.literal_eval(v_)
+            except (ValueError, SyntaxError):
+                return None
+            if isinstance(val, dict):
+                seq = list(val.items()) if meth == "items" else list(val.values()) if meth == "values" else list(val.keys())
+            else:
+                seq = list(val)
+            out = []
+            for item in seq:
+                x = item if pos == "self" else (item[pos] if isinstance(item, (tuple, list)) and pos < len(item) else None)
+                if not isinstance(x, str):
+                    return None
+                out.append(x)
+            return out
+        return None
 
     def qn(self, ci, fd):
         return "%s.%s" % (ci.name, fd.name) if ci is not None else fd.name
@@ -618,6 +679,17 @@ class Escape:
         if fname == "time.sleep" and any(kinds):
             self.site("sleep", "ValueError", n, mod, ci, fd, "%s (duration from received data)" % canon(n), stack, chain)
             return
+        if fname in ("setattr", "getattr", "hasattr") and n.args:
+            # dynamic attribute access: total; a tainted value stored through setattr is an attribute store under
+            # every name the (folded) name expression can take
+            if fname == "setattr" and len(n.args) == 3 and self.expr_tainted(n.args[2], taint, ci, mod):
+                names = self.possible_strs(n.args[1], fd, ci, mod)
+                if names is None:
+                    self.unresolved.append((n, mod, self.qn(ci, fd)))
+                    return
+                for nm_ in names:
+                    self.stores.append(AttrStore(nm_, st, mod, self.qn(ci, fd), n.args[2], self.cfg(fd)))
+            return
         r = self.resolve(n, ci, mod, fd)
         if r == "safe":
             return
@@ -645,6 +717,15 @@ class Escape:
                     ty = self.static_type(kw_.value, fd, taint)
                     if ty:
                         t2["$type:" + kw_.arg] = ty
+            # what the caller's guards say about plain-name arguments: truthy / not None
+            try:
+                cl_ = guard_literals(self.cfg(fd), self.cfg(fd).node_of(n))
+            except AnalysisError:
+                cl_ = set()
+            for i_, a_ in enumerate(as_):
+                if i_ < len(pn_) and isinstance(a_, ast.Name):
+                    if (a_.id, True) in cl_ or ("None is " + a_.id, False) in cl_ or taint.get("$notnone:" + a_.id):
+                        t2["$notnone:" + pn_[i_]] = True
             for t, k in taint.items():
                 if t.startswith("self."):
                     t2.setdefault(t, k)
